@@ -134,6 +134,10 @@ class RateLimiter:
                 ip
                 for ip, bucket in self.buckets.items()
                 if now - bucket.last_update > 600  # 10 minutes idle
+                # ...and refilled to capacity, so that a fresh bucket created on the
+                # next request grants no more than the evicted one would have
+                and bucket.tokens + (now - bucket.last_update) * bucket.refill_rate
+                >= bucket.capacity
             ]
 
             for ip in to_remove:
